@@ -1,15 +1,19 @@
 package c11
 
 import (
+	"bufio"
 	"errors"
 	"fmt"
+	"os"
 	"runtime"
 	"sort"
+	"strings"
 	"testing"
 	"time"
 
 	"pgregory.net/rapid"
 
+	"github.com/evolbioinfo/gotree/io/utils"
 	"github.com/evolbioinfo/gotree/support"
 	"github.com/evolbioinfo/gotree/tree"
 
@@ -32,10 +36,12 @@ type Case struct {
 	BadPos  []int       `json:"bad_pos"`
 	Tips    bool        `json:"tips"`
 	Repeat  int         `json:"repeat"`
+	Reader  bool        `json:"via_reader,omitempty"` // the stream comes from utils.ReadMultiTrees on a text (possibly empty) instead of the harness's producer
+	Moved   bool        `json:"moved_taxa,omitempty"` // tbe: raw tree, moved-taxa and per-branch tables in a log file
 }
 
 func (c Case) bad(i int) bool {
-	if c.BadKind == "" {
+	if c.BadKind == "" || len(c.Trees) == 0 {
 		return false
 	}
 	for _, p := range c.BadPos {
@@ -50,6 +56,22 @@ func (c Case) bad(i int) bool {
 // harness, pausing according to the drawn pattern (fresh parses: the functions mutate
 // their inputs).
 func (c Case) producer() (<-chan tree.Trees, error) {
+	if c.Reader {
+		var b strings.Builder
+		for i, m := range c.Trees {
+			switch {
+			case c.bad(i) && c.BadKind == "error-record":
+				b.WriteString("(a,b;\n") // a record the reader reports as an error
+			case c.bad(i) && c.BadKind == "renamed":
+				mm := m.Clone()
+				mm.TipNodes()[0].Name = "zz_other"
+				b.WriteString(ref.Write(mm) + "\n")
+			default:
+				b.WriteString(ref.Write(m) + "\n")
+			}
+		}
+		return utils.ReadMultiTrees(bufio.NewReader(strings.NewReader(b.String())), utils.FORMAT_NEWICK), nil
+	}
 	trees := make([]tree.Trees, len(c.Trees))
 	for i, m := range c.Trees {
 		if c.bad(i) && c.BadKind == "error-record" {
@@ -149,6 +171,29 @@ func (c Case) run(threads int) (result, error) {
 		if err := rt.ReinitIndexes(); err != nil {
 			return r, err
 		}
+		if c.Moved {
+			f, ferr := os.CreateTemp("", "c11tbelog")
+			if ferr != nil {
+				return r, ferr
+			}
+			defer os.Remove(f.Name())
+			raw, err := support.TBE(rt, ch, threads, true, true, true, 0.3, f, nil)
+			f.Close()
+			r.err = err != nil
+			if err == nil {
+				lg, _ := os.ReadFile(f.Name())
+				var keep []string
+				for _, l := range strings.Split(string(lg), "\n") {
+					ll := strings.ToLower(l)
+					if strings.HasPrefix(ll, "cpus") || strings.Contains(ll, "date") || strings.Contains(ll, "time") || strings.Contains(ll, "start") || strings.Contains(ll, "end") {
+						continue
+					}
+					keep = append(keep, l)
+				}
+				r.text = rt.Newick() + "\n" + raw.Newick() + "\n" + strings.Join(keep, "\n")
+			}
+			return r, nil
+		}
 		_, err := support.TBE(rt, ch, threads, false, false, false, 0.3, nil, nil)
 		r.err = err != nil
 		if err == nil {
@@ -174,16 +219,32 @@ func check(c Case) error {
 	// the single-threaded run itself must deliver the errors
 	switch c.Func {
 	case "compare", "weighted":
-		if len(base.records) != len(c.Trees) {
-			return fmt.Errorf("%s with 1 thread: %d records for %d trees", c.Func, len(base.records), len(c.Trees))
+		want := len(c.Trees)
+		if c.Reader && c.BadKind == "error-record" {
+			// the reader stops at the first record it cannot parse
+			for i := range c.Trees {
+				if c.bad(i) {
+					want = i + 1
+					break
+				}
+			}
 		}
-		for i := range c.Trees {
+		if c.Reader && len(c.Trees) == 0 {
+			want = len(base.records) // an empty file: the reader may deliver one error record or nothing
+			if want > 1 {
+				return fmt.Errorf("%s on an empty stream: %d records", c.Func, want)
+			}
+		}
+		if len(base.records) != want {
+			return fmt.Errorf("%s with 1 thread: %d records for %d trees (expected %d)", c.Func, len(base.records), len(c.Trees), want)
+		}
+		for i := 0; i < want && i < len(c.Trees); i++ {
 			if (base.records[i] == "error") != c.bad(i) {
 				return fmt.Errorf("%s with 1 thread: record %d is %q, bad=%v", c.Func, i, base.records[i], c.bad(i))
 			}
 		}
 	default:
-		if base.err != anyBad {
+		if len(c.Trees) > 0 && base.err != anyBad {
 			return fmt.Errorf("%s with 1 thread: error=%v although bad tree present=%v", c.Func, base.err, anyBad)
 		}
 	}
@@ -227,7 +288,13 @@ func genCase(t *rapid.T, thorough bool) Case {
 	for i := 0; i < n; i++ {
 		c.Trees = append(c.Trees, variants[rapid.IntRange(0, len(variants)-1).Draw(t, "variant")])
 	}
-	if rapid.IntRange(0, 2).Draw(t, "hasbad") == 0 {
+	c.Reader = rapid.IntRange(0, 3).Draw(t, "viareader") == 0
+	c.Moved = c.Func == "tbe" && rapid.Bool().Draw(t, "moved")
+	if c.Reader && rapid.IntRange(0, 5).Draw(t, "empty") == 0 {
+		c.Trees = nil // an empty file
+		n = 0
+	}
+	if n > 0 && rapid.IntRange(0, 2).Draw(t, "hasbad") == 0 {
 		c.BadKind = rapid.SampledFrom([]string{"error-record", "renamed"}).Draw(t, "badkind")
 		switch rapid.IntRange(0, 3).Draw(t, "badwhere") {
 		case 0:
@@ -237,7 +304,8 @@ func genCase(t *rapid.T, thorough bool) Case {
 		case 2:
 			c.BadPos = []int{n / 2}
 		default:
-			c.BadPos = rapid.SliceOfN(rapid.IntRange(0, 100), 1, 3).Draw(t, "badpos")
+			// several bad records, possibly most of the stream (several workers meet one at the same time)
+			c.BadPos = rapid.SliceOfN(rapid.IntRange(0, 100), 1, 12).Draw(t, "badpos")
 		}
 	}
 	return c
@@ -246,13 +314,14 @@ func genCase(t *rapid.T, thorough bool) Case {
 func TestC11Threads(t *testing.T) {
 	h.Run(t, h.Spec[Case]{
 		Property: "C11", Name: "threads", Quick: 1200, Thorough: 24000, Timeout: 60 * time.Second,
-		Rule: "Compare / CompareWeighted / FBP / TBE on a reference tree and a stream of 1..40 trees (fresh parses), thread counts {2,3,4,8,16,64}, GOMAXPROCS {1,2,16}, producer goroutine pausing by a drawn pattern (Gosched / 1us / 200us), optional error record or taxon-mismatched tree first / middle / last / several; binary built with -race (a report ends the process: violation); results compared per tree id with the 1-thread run, twice; watchdog 60 s; non-trivial = #trees >= 2*threads, or a bad record in a stream of >= 3 trees",
+		Rule: "Compare / CompareWeighted / FBP / TBE on a reference tree and a stream of 1..40 trees (fresh parses), thread counts {2,3,4,8,16,64}, GOMAXPROCS {1,2,16}, producer goroutine pausing by a drawn pattern (Gosched / 1us / 200us), optional error record or taxon-mismatched tree first / middle / last / several (up to 12); a quarter of the streams come from utils.ReadMultiTrees on a text (one in six of those empty); TBE in half of the cases with raw tree, moved-taxa and per-branch tables in a log file (compared after masking dates and the CPU count); binary built with -race (a report ends the process: violation); results compared per tree id with the 1-thread run, twice; watchdog 60 s; non-trivial = #trees >= 2*threads, or a bad record in a stream of >= 3 trees",
 		Gen:   genCase,
 		Check: check,
 		Classify: func(c Case) (bool, []string) {
 			l := []string{"func:" + c.Func, fmt.Sprintf("threads=%d", c.Threads), fmt.Sprintf("procs=%d", c.Procs)}
 			if c.BadKind != "" {
 				l = append(l, "bad:"+c.BadKind)
+				l = append(l, fmt.Sprintf("bad-records:%d", len(c.BadPos)))
 				p := c.BadPos[0] % len(c.Trees)
 				switch {
 				case p == 0:
@@ -262,6 +331,15 @@ func TestC11Threads(t *testing.T) {
 				default:
 					l = append(l, "bad-middle")
 				}
+			}
+			if c.Reader {
+				l = append(l, "via-ReadMultiTrees")
+			}
+			if len(c.Trees) == 0 {
+				l = append(l, "empty-stream")
+			}
+			if c.Moved {
+				l = append(l, "tbe-moved-taxa-log")
 			}
 			if c.Threads > len(c.Trees) {
 				l = append(l, "more-threads-than-trees")
